@@ -447,6 +447,8 @@ def i_PUSH(i, fmap):
         op1 = op1.signextend(opdsz)  # push imm8
     elif op1.size == 16:
         op1 = op1.zeroextend(opdsz)  # push segm register
+    elif op1.size == 32:
+        op1 = op1.signextend(opdsz)  # push imm32
     push(fmap, op1)
 
 
